@@ -792,7 +792,6 @@ func checkXbuf(ctx *Ctx) {
 	R.Count("xbuf-methods", len(names))
 }
 
-
 // xbufFixed: methods appending a fixed number of bytes determined by one argument.
 var xbufFixed = map[string]string{
 	"C":   "the byte given",
